@@ -104,6 +104,14 @@ async def explore(tier, seed, m, v):
             kind = "valid"
             r = rng.random()
             if r < 0.12: opn = rng.choice(["Nope", "op0", "", None, "Op1", "Op7"]); kind = "opname"
+            elif r < 0.24:
+                # syntactically fine, refused by (or crashing inside) a validation rule: still a response, never a raise
+                try:
+                    from violations import Catalogue
+                    alts = Catalogue(sg, rng).all(q)
+                    if alts: q = rng.choice(alts)[1]; kind = "rule-breaking"
+                except Exception:
+                    pass
             elif r < 0.42: q = mutate_text(rng, q); kind = "mutated"
             elif r < 0.55: q = junk_text(rng); kind = "junk"
             elif r < 0.6: variables = rng.choice([None, {}, [1, 2], "str", 5, {"v0": object}]); kind = "odd-variables"
